@@ -412,7 +412,7 @@ func c12(r *core.Run) {
 		// argument: getQuery(nil)
 		argOK := false
 		if va := elemOfVarargs(drop.Common().Args[1]); va != nil {
-			if c, ok := va.(*ssa.Call); ok && c.Common().StaticCallee() != nil && c.Common().StaticCallee().Name() == "getQuery" && isNilConst(c.Common().Args[1]) {
+			if c, ok := va.(*ssa.Call); ok && c.Common().StaticCallee() != nil && c.Common().StaticCallee() == resolveIdxRoles(p, rel).getQuery && isNilConst(c.Common().Args[1]) {
 				argOK = true
 			}
 		}
@@ -474,8 +474,8 @@ func c13(r *core.Run) {
 	r.Rule("W1", "window guards: limit==0 returns an empty result before the database is touched; a negative limit is replaced by max-int", 2)
 
 	// K1
-	gk := methodNamed(p, rel, "Index", "getKey")
-	gq := methodNamed(p, rel, "Index", "getQuery")
+	iro := resolveIdxRoles(p, rel)
+	gk, gq := iro.getKey, iro.getQuery
 	fc := methodNamed(p, rel, "IndexQuery", "FetchCollection")
 	if gk == nil || gq == nil || fc == nil {
 		r.Unres("K1", "getKey/getQuery/FetchCollection", "missing")
@@ -549,13 +549,12 @@ func c13(r *core.Run) {
 
 	c11CacheCoherence(r, "B1", rel)
 	// K2 / Q1 in querystore
-	ui := methodNamed(p, rel, "QueryStore", "updateIndex")
-	hc := methodNamed(p, rel, "QueryStore", "handleChange")
+	ui, hc := iro.updateIndex, iro.handleChange
 	if ui == nil || hc == nil {
 		r.Unres("K2", "updateIndex/handleChange", "missing")
 		return
 	}
-	for _, f2 := range withAnon(ui) {
+	for _, f2 := range append([]*ssa.Function{ui}, txnBodies(ui)...) {
 		for _, c := range core.Calls(f2) {
 			if !isBadgerCall(c, "Txn", "Set") {
 				continue
@@ -608,7 +607,7 @@ func c13(r *core.Run) {
 		}
 	}
 	// K3: index maintenance keeps nil ("not indexed") apart from an empty key
-	for _, f2 := range ui.AnonFuncs {
+	for _, f2 := range txnBodies(ui) {
 		c, g, bn, _ := equalGuards(f2)
 		if c == 0 {
 			continue
@@ -849,7 +848,7 @@ func c14(r *core.Run) {
 	r.Rule("O1", "mutation order per id: index maintenance - which applies one id's key deltas and runs the query-change callbacks - is executed only as a task handed to the blocking FIFO TaskQueue.Do by the store's change handler (no direct call, TryDo fallback or goroutine that could let a later delta overtake an earlier one)", 1)
 	r.Rule("N3", "query handler: a reset flag yields a reset event (resources) or a fresh result reply (query requests) and no per-event dispatch; both event dispatchers handle the same event names; errors are returned / replied", 3)
 
-	ui := methodNamed(p, rel, "QueryStore", "updateIndex")
+	ui := resolveIdxRoles(p, rel).updateIndex
 	aq := methodNamed(p, rel, "queryChange", "affectsQuery")
 	if ui == nil || aq == nil {
 		r.Unres("N1", "updateIndex/affectsQuery", "missing")
@@ -871,7 +870,7 @@ func c14(r *core.Run) {
 		}
 		if u, ok := c.Common().Value.(*ssa.UnOp); ok {
 			if ia, ok := u.X.(*ssa.IndexAddr); ok {
-				if f, ok := core.LoadedField(ia.X); ok && f.Name == "onQueryChange" {
+				if f, ok := core.LoadedField(ia.X); ok && f == listenerFieldOf(p, rel, "QueryStore", "OnQueryChange") {
 					fan = append(fan, c)
 				}
 			}
@@ -914,7 +913,29 @@ func c14(r *core.Run) {
 			if ci.Kind == "other" || ci.Kind == "boolfield" {
 				// the updated cell: a bool load from a local alloc
 				if u, ok := ci.X.(*ssa.UnOp); ok {
+					flagOK := false
 					if al, ok := u.X.(*ssa.Alloc); ok && isChangedFlag(al) {
+						flagOK = true
+					}
+					// the flag may be a bool field of a local struct whose method runs as the transaction body
+					if fa, ok := u.X.(*ssa.FieldAddr); ok {
+						if _, isLocal := fa.X.(*ssa.Alloc); isLocal {
+							if ff, ok := core.FieldOf(fa); ok {
+								for _, body := range txnBodies(ui) {
+									for _, bb := range body.Blocks {
+										for _, in2 := range bb.Instrs {
+											if st2, ok := in2.(*ssa.Store); ok && isConstBool(st2.Val, true) {
+												if g, ok := core.FieldOf(st2.Addr); ok && g == ff {
+													flagOK = true
+												}
+											}
+										}
+									}
+								}
+							}
+						}
+					}
+					if flagOK {
 						truth := ed.Succ == 0
 						if ci.Negate {
 							truth = !truth
@@ -929,7 +950,7 @@ func c14(r *core.Run) {
 		r.Check(okCommit && okMsg && okFlag, "N1", core.FuncName(ui), "fan-out-after-commit-and-only-if-changed", p.InstrPos(c), "callbacks run only after the index transaction committed without per-key errors and some key changed", fmt.Sprintf("fan-out not properly guarded: afterCommit=%v noKeyErrors=%v changedFlag=%v", okCommit, okMsg, okFlag))
 	}
 	// the flag's true-store lies behind the changed-key edge (not reachable on the unchanged 'continue' path)
-	for _, f2 := range ui.AnonFuncs {
+	for _, f2 := range txnBodies(ui) {
 		for _, b := range f2.Blocks {
 			for _, in := range b.Instrs {
 				st, ok := in.(*ssa.Store)
@@ -978,7 +999,7 @@ func c14(r *core.Run) {
 	}
 	// N2
 	var uiCl *ssa.Function
-	for _, f2 := range ui.AnonFuncs {
+	for _, f2 := range txnBodies(ui) {
 		if len(keyPredicateCalls(f2)) > 0 {
 			uiCl = f2
 		}
@@ -1558,4 +1579,99 @@ func closureValueIs(v ssa.Value, mc *ssa.MakeClosure) bool {
 		}
 	}
 	return false
+}
+
+// indexRoles resolves the unexported anchors of the badger index code by role:
+// the key builder (Index method: two []byte parameters -> []byte), the query
+// prefix builder (Index method: one []byte parameter -> []byte), the index
+// maintenance function (QueryStore method (string, interface{}, interface{})
+// error) and the store change handler (QueryStore method (string, interface{},
+// interface{}) without result).
+type idxRoles struct {
+	getKey, getQuery, updateIndex, handleChange *ssa.Function
+}
+
+func resolveIdxRoles(p *core.Prog, rel string) idxRoles {
+	var ro idxRoles
+	isBytes := func(t types.Type) bool { return types.TypeString(t, nil) == "[]byte" }
+	for _, m := range methodsOf(p, rel, "Index") {
+		sg := m.Signature
+		if sg.Results().Len() != 1 || !isBytes(sg.Results().At(0).Type()) {
+			continue
+		}
+		n := 0
+		for i := 0; i < sg.Params().Len(); i++ {
+			if isBytes(sg.Params().At(i).Type()) {
+				n++
+			}
+		}
+		if n == 2 && sg.Params().Len() == 2 {
+			ro.getKey = m
+		}
+		if n == 1 && sg.Params().Len() == 1 {
+			ro.getQuery = m
+		}
+	}
+	for _, m := range methodsOf(p, rel, "QueryStore") {
+		sg := m.Signature
+		if sg.Params().Len() != 3 || types.TypeString(sg.Params().At(0).Type(), nil) != "string" ||
+			types.TypeString(sg.Params().At(1).Type(), nil) != "interface{}" || types.TypeString(sg.Params().At(2).Type(), nil) != "interface{}" {
+			continue
+		}
+		switch sg.Results().Len() {
+		case 0:
+			ro.handleChange = m
+		case 1:
+			if types.TypeString(sg.Results().At(0).Type(), nil) == "error" {
+				ro.updateIndex = m
+			}
+		}
+	}
+	return ro
+}
+
+// txnBodies: the functions that run as part of fn's database transactions and
+// closures: its func literals, and methods handed to DB.Update / DB.View as
+// method values (with their own literals).
+func txnBodies(fn *ssa.Function) []*ssa.Function {
+	seen := map[*ssa.Function]bool{}
+	var out []*ssa.Function
+	add := func(f *ssa.Function) {
+		for _, x := range withAnon(f) {
+			if !seen[x] && x != fn {
+				seen[x] = true
+				out = append(out, x)
+			}
+		}
+	}
+	for _, a := range fn.AnonFuncs {
+		add(a)
+	}
+	for _, c := range core.Calls(fn) {
+		if isBadgerCall(c, "DB", "Update") || isBadgerCall(c, "DB", "View") {
+			if cl := closureArg(c); cl != nil && cl.Parent() == nil {
+				add(cl)
+			}
+		}
+	}
+	return out
+}
+
+// listenerFieldOf: the field the exported registration method stores into.
+func listenerFieldOf(p *core.Prog, rel, tname, setter string) core.Field {
+	m := methodNamed(p, rel, tname, setter)
+	if m == nil {
+		return core.Field{}
+	}
+	var fld core.Field
+	for _, b := range m.Blocks {
+		for _, in := range b.Instrs {
+			if st, ok := in.(*ssa.Store); ok {
+				if f, ok := core.FieldOf(st.Addr); ok {
+					fld = f
+				}
+			}
+		}
+	}
+	return fld
 }
